@@ -71,6 +71,7 @@ package multidb
 //@   ensures  [conflict] exists(j, 0, old(gRecN[db]), old(gRecs[db][j]).Req != req && cf(old(gRecs[db][j]).Table, route.Table)) ==> result != nil
 //@   ensures  [reassign] exists(j, 0, old(gRecN[db]), old(gRecs[db][j]).Req == req && old(gRecs[db][j]).Table != route.Table) ==> result != nil
 //@   loop 1 invariant 0 <= _k && _k <= len(records) && forall(j, 0, _k, records[j].Req != req && !cf(records[j].Table, route.Table))
+//@   loop 1 exithint assert _k < len(records) && records[_k].Req == req && records[_k].Table == route.Table ==> forall(j, 0, len(records), j != _k ==> records[j].Req != req && !cf(records[j].Table, route.Table))
 //@
 //@ // ---- verification: no error exactly when every recorded request is still routed to its database type, name and table ----
 //@ spec sameRoute(p *Producer, loc DBLocator, r TableRecord) bool = rtType(p, r.Req, "", "") == loc.Type && rtName(p, r.Req, "", "") == loc.Name && rtTable(p, r.Req, "", "") == r.Table
